@@ -1,4 +1,6 @@
 import ClusterVerif.Props.C03
 #print axioms CV.C03.allowed_holds
+#print axioms CV.C03.allocate_allowed
+#print axioms CV.C03.allocate_holds
 #print axioms CV.C03.valid_factors_no_panic
 #print axioms CV.C03.factorsValid_iff
